@@ -223,8 +223,7 @@ func (d *Descriptor) readAsSlice(out Outputter, data []byte) (n int, err error) 
 			if s == 0 {
 				continue
 			}
-			end := offset + int(s)
-			if end > len(data) {
+			if s > uint64(len(data)-offset) {
 				return 0, fmt.Errorf("corrupt data reading slice entry %d", i)
 			}
 
@@ -288,7 +287,7 @@ func (d *Descriptor) readAsMapEntry(out Outputter, data []byte) (n int, err erro
 			}
 			offset += n
 			fl = int(v) + offset
-			if fl > l {
+			if v > uint64(l-offset) {
 				return 0, fmt.Errorf("length %d of field %d of %s exceeds data length", fl, index, d.Name)
 			}
 		}
@@ -343,7 +342,7 @@ func (d *Descriptor) readAsStruct(out Outputter, data []byte) (n int, err error)
 			}
 			offset += n
 			fl = int(v) + offset
-			if fl > l {
+			if v > uint64(l-offset) {
 				return 0, fmt.Errorf("length %d of field %d of %s exceeds data length", fl, index, d.Name)
 			}
 		}
